@@ -175,18 +175,22 @@ def eachTag (vs : List RawValue) : List (Str × List RawValue) :=
   let tags := sortBy Str.lt (vs.map (·.tag)).eraseDups
   tags.map (fun t => (t, vs.filter (·.tag == t)))
 
+/-- the text of the values array for one candidate: the quoted value, and a blank unless the
+    value matches the no-space set or the typed word is fully quoted -/
+def zshValueText (env : Env) (st : ZshState) (ns : SuffixMatcher) (v : Str) : Str :=
+  let value := zshInsert env st v
+  if !SuffixMatcher.matchesStr ns v then
+    match st with
+    | .fullQuotingEscaping | .fullQuoting => value
+    | _ => value ++ [' ']
+  else value
+
 /-- the third (`data`) field of zsh's output -/
 def zshData (env : Env) (m : Meta) (vs : List RawValue) : Str :=
   let st := zshStateOf env.zshRaw
   let vs := vs.map (fun v => { v with tag := zshTag v.tag })
   let groups := (eachTag vs).map (fun (tag, gvs) =>
-    let vals := gvs.map (fun v =>
-      let value := zshInsert env st v.value
-      if !SuffixMatcher.matchesStr m.nospace v.value then
-        match st with
-        | .fullQuotingEscaping | .fullQuoting => value
-        | _ => value ++ [' ']
-      else value)
+    let vals := gvs.map (fun v => zshValueText env st m.nospace v.value)
     let displays := gvs.map (fun v =>
       let display := zshDescribe (san Gen.zsh_sanitizer v.display)
       let description := san Gen.zsh_sanitizer v.description
